@@ -136,3 +136,79 @@ theorem dfs_component (nbrs : α → List α) (fuel : Nat) (p : α) (g : List α
         exact ha hs.self)
 
 end Hdl21.Dfs
+
+namespace Hdl21.Dfs
+variable {α : Type} [DecidableEq α]
+
+/-- how many nodes of the universe `U` are not yet in the group -/
+def unvisited (U g : List α) : Nat := (U.filter (fun x => !decide (x ∈ g))).length
+
+theorem unvisited_cons_in (a : α) (r g : List α) (h : a ∈ g) : unvisited (a :: r) g = unvisited r g := by
+  unfold unvisited
+  rw [List.filter_cons_of_neg (by simp [h])]
+
+theorem unvisited_cons_out (a : α) (r g : List α) (h : a ∉ g) : unvisited (a :: r) g = unvisited r g + 1 := by
+  unfold unvisited
+  rw [List.filter_cons_of_pos (by simp [h])]
+  rfl
+
+theorem unvisited_mono (U : List α) {g g' : List α} (h : ∀ x, x ∈ g → x ∈ g') : unvisited U g' ≤ unvisited U g := by
+  induction U with
+  | nil => simp [unvisited]
+  | cons a r ih =>
+    by_cases ha : a ∈ g
+    · rw [unvisited_cons_in a r g ha, unvisited_cons_in a r g' (h a ha)]; exact ih
+    · rw [unvisited_cons_out a r g ha]
+      by_cases ha' : a ∈ g'
+      · rw [unvisited_cons_in a r g' ha']; omega
+      · rw [unvisited_cons_out a r g' ha']; omega
+
+theorem unvisited_add (U : List α) (g : List α) (p : α) (hp : p ∈ U) (hg : p ∉ g) : unvisited U (g ++ [p]) < unvisited U g := by
+  induction U with
+  | nil => cases hp
+  | cons a r ih =>
+    by_cases hap : a = p
+    · subst hap
+      rw [unvisited_cons_out a r g hg, unvisited_cons_in a r (g ++ [a]) (by simp)]
+      have := unvisited_mono r (g := g) (g' := g ++ [a]) (fun x hx => List.mem_append_left _ hx)
+      omega
+    · have hpr : p ∈ r := by
+        rcases List.mem_cons.mp hp with h | h
+        · exact absurd h.symm hap
+        · exact h
+      have := ih hpr
+      by_cases ha : a ∈ g
+      · rw [unvisited_cons_in a r g ha, unvisited_cons_in a r (g ++ [p]) (List.mem_append_left _ ha)]; exact this
+      · have h1 : a ∉ g ++ [p] := by
+          intro hm
+          rcases List.mem_append.mp hm with h | h
+          · exact ha h
+          · simp at h; exact hap h
+        rw [unvisited_cons_out a r g ha, unvisited_cons_out a r (g ++ [p]) h1]; omega
+
+/-- **Group discovery always answers**, given fuel beyond the number of nodes it can still add. -/
+theorem dfs_total (nbrs : α → List α) (U : List α) (hU : ∀ x, x ∈ U → ∀ y, y ∈ nbrs x → y ∈ U) :
+    ∀ (fuel : Nat) (p : α) (g : List α), p ∈ U → unvisited U g < fuel → ∃ g', dfs nbrs fuel p g = some g'
+  | 0, _, _, _, h => by omega
+  | fuel + 1, p, g, hp, hf => by
+    rw [dfs]
+    split
+    · exact ⟨g, rfl⟩
+    · rename_i hpg
+      have hlt := unvisited_add U g p hp hpg
+      -- the fold over the neighbours: the group only grows, so the fuel stays sufficient
+      have fold : ∀ (qs : List α) (g0 : List α), (∀ q, q ∈ qs → q ∈ U) → unvisited U g0 < fuel →
+          ∃ g', dfsList (dfs nbrs fuel) qs g0 = some g' := by
+        intro qs
+        induction qs with
+        | nil => intro g0 _ _; exact ⟨g0, rfl⟩
+        | cons q rest ih =>
+          intro g0 hqs hf0
+          obtain ⟨g1, hg1⟩ := dfs_total nbrs U hU fuel q g0 (hqs q (List.mem_cons_self ..)) hf0
+          have hmono := (dfs_spec nbrs fuel q g0 g1 hg1).mono
+          have hf1 : unvisited U g1 < fuel := Nat.lt_of_le_of_lt (unvisited_mono U hmono) hf0
+          obtain ⟨g2, hg2⟩ := ih g1 (fun x hx => hqs x (List.mem_cons_of_mem _ hx)) hf1
+          exact ⟨g2, by rw [dfsList, hg1]; exact hg2⟩
+      exact fold (nbrs p) (g ++ [p]) (fun q hq => hU p hp q hq) (by omega)
+
+end Hdl21.Dfs
